@@ -759,7 +759,12 @@ type heldPub struct {
 	c     *xsubs.SConn
 	reqID uint32
 	req   ua.Request
+	at    time.Time
 }
+
+// the client gives up on a PublishRequest after its request timeout (3 s in the
+// scenarios); a held request older than this is not answered any more
+const heldMaxAge = 2 * time.Second
 
 func newScriptedBackend() (*scriptedBackend, error) {
 	b := &scriptedBackend{seq: map[uint32]uint32{}, subs: map[uint32]map[uint32]bool{}, sessionValid: true}
@@ -768,7 +773,7 @@ func newScriptedBackend() (*scriptedBackend, error) {
 		defer b.mu.Unlock()
 		switch req := r.(type) {
 		case *ua.PublishRequest:
-			b.held = append(b.held, heldPub{c, reqID, r})
+			b.held = append(b.held, heldPub{c, reqID, r, time.Now()})
 			if b.faulted {
 				b.after++
 			}
@@ -833,7 +838,20 @@ func (b *scriptedBackend) Change(sub *opcua.Subscription, handle uint32, v int, 
 		items, ok := b.subs[sub.SubscriptionID]
 		return ok && items[handle]
 	}
-	xsubs.WaitFor(1500*time.Millisecond, func() bool { b.mu.Lock(); defer b.mu.Unlock(); return len(b.held) > 0 })
+	fresh := func() bool {
+		b.mu.Lock()
+		defer b.mu.Unlock()
+		k := 0
+		for _, x := range b.held {
+			if time.Since(x.at) < heldMaxAge {
+				b.held[k] = x
+				k++
+			}
+		}
+		b.held = b.held[:k]
+		return k > 0
+	}
+	xsubs.WaitFor(4*time.Second, fresh)
 	b.mu.Lock()
 	if len(b.held) == 0 || !has() {
 		b.mu.Unlock()
@@ -985,7 +1003,16 @@ func (e *env) scenario(kind string, nsubs, nitems int) *scenResult {
 				return res
 			}
 			if !delivered(s, s.handle[i], val, 1500*time.Millisecond) {
-				res.missing = append(res.missing, fmt.Sprintf("sub%d/v%d", k, v))
+				// one more change before the item counts as dead (a publish answered
+				// just as the client's request timed out is lost without any defect)
+				val++
+				if err := be.Change(s.sub, s.handle[i], v, val); err != nil {
+					res.infra = err.Error()
+					return res
+				}
+				if !delivered(s, s.handle[i], val, 1500*time.Millisecond) {
+					res.missing = append(res.missing, fmt.Sprintf("sub%d/v%d", k, v))
+				}
 			}
 		}
 	}
